@@ -80,6 +80,7 @@ def base_scenarios():
     """(name, set-up signals, activities, consumer script, tags)"""
     out = []
     out.append(('wait_vs_deliver', [S1], [dl(S1, 1), CONS], [W, D(0)], 'c09 c10'))
+    out.append(('wait_wait_vs_deliver', [S1], [dl(S1, 1), CONS], [W, D(0), W, D(1)], 'c09'))
     out.append(('forever_vs_deliver', [S1], [dl(S1, 1), CONS], [F, N], 'c09 c10'))
     out.append(('forever_2sig', [S1, S2], [dl(S1, 1), dl(S2, 2), CONS], [F, N, N], 'c09 c10'))
     out.append(('forever_same_sig', [S1], [dl(S1, 1), dl(S1, 2), CONS], [F, N, P, D(0)], 'c09 c10'))
@@ -112,7 +113,7 @@ def split_points(kind, script):
 def gen(seed, tier, want=None):
     rnd = random.Random(seed)
     scen = []
-    per = 10 if tier == 'quick' else 150
+    per = 6 if tier == 'quick' else 150
     for name, setup, acts, script, tags in base_scenarios():
         if want and not any(w in tags.split() for w in want):
             continue
@@ -308,23 +309,26 @@ def mon_c09(s, r):
         return viol
     cons = s.consumer()
     tr = r['trace']
-    # batches handed out and whether they are exhausted
-    def open_batches(upto):
-        nb, done = 0, set()
-        cur = None
-        for (a, op, loc, arg, res, ok) in tr[:upto]:
-            if op == 32 and arg == 1:
-                nb += 1
-            if op == 33:
-                cur = arg % 1000
-            if op == 34 and arg == 0 and cur is not None:
-                done.add(cur)
-        return nb - len(done)
+    # one pass: slots set, handlers between store and wake, batches handed out / exhausted
+    slot, mid = {}, {}
+    nb, done, cur = 0, set(), None
     for idx, (a, op, loc, arg, res, ok) in enumerate(tr):
-        if op == 24 and a == cons:
-            slot, pipe, mid, closed = replay_state(s, r, idx)
-            lost = [g for g, v in slot.items() if v and g not in mid]
-            if lost and open_batches(idx) == 0:
+        if op == 1 and loc >= 100:
+            slot[loc - 100] = 1
+            mid[a] = loc - 100
+        elif op == 5 and loc >= 100 and ok:
+            slot[loc - 100] = 0
+        elif op == 15 and arg == 1:
+            mid.pop(a, None)
+        elif op == 32 and arg == 1:
+            nb += 1
+        elif op == 33:
+            cur = arg % 1000
+        elif op == 34 and arg == 0 and cur is not None:
+            done.add(cur)
+        elif op == 24 and a == cons:
+            lost = [g for g, v in slot.items() if v and g not in mid.values()]
+            if lost and nb - len(done) == 0:
                 viol.append(('lost-wakeup', idx, 'consumer blocked on the self-pipe (nothing readable) while signal %s is delivered, stored, its wake-up done and unreported' % lost))
                 break
     # parked after Pending at the end of the run with a set slot and no byte to trigger the armed wake-up
